@@ -100,8 +100,10 @@ class StepCase(engine.Case):
         self.args = args
         self.mode = args["mode"]  # batch | perm | ru
         self.restricted = bool(args.get("restricted", False))
-        self.norb, self.nocc, self.nchol, self.nw = args.get("norb", 2), 1, args.get("nchol", 1), args.get("n_walkers", 4)
+        self.norb, self.nocc, self.nchol, self.nw = args.get("norb", 2), args.get("nocc", 1), args.get("nchol", 1), args.get("n_walkers", 4)
         self.name = f"propagate:{self.mode}:{'restricted' if self.restricted else 'unrestricted'}:norb={self.norb}:nchol={self.nchol}:nw={self.nw}"
+        if self.nocc != 1:
+            self.name += f":nocc={self.nocc}"
         self.timeout_s = 300
         self._setup()
 
@@ -138,7 +140,7 @@ class StepCase(engine.Case):
              "fields": arr((self.nw, self.nchol), lambda i: V.r(f"x{i[0]}_{i[1]}")),
              "weights": arr((self.nw,), lambda i: V.r(f"wt{i[0]}")),
              "shift": arr((), lambda i: V.r("Es"))}
-        if self.mode != "ru" and not self.restricted:
+        if self.mode not in ("ru", "rumeas") and not self.restricted:
             d["Wd"] = arr((self.nw, n, self.nocc), lambda i: V.c(f"wd{i[0]}_{i[1]}{i[2]}"))
         return d
 
@@ -147,15 +149,16 @@ class StepCase(engine.Case):
         # weights of a valid state are non-negative
         return [qdom.tz(w.c[0]) >= 0 for w in inp["weights"]]
 
-    def _step(self, restricted, nb, W, fields, weights, shift):
+    def _step(self, restricted, nb, W, fields, weights, shift, rhf_on_list=False):
         from ad_afqmc import propagation
-        trial, wd = (self.rt, self.rwd) if restricted else (self.ut, self.uwd)
+        trial, wd = (self.rt, self.rwd) if (restricted or rhf_on_list) else (self.ut, self.uwd)
         trial.n_batch = nb
         cls = propagation.propagator_restricted if restricted else propagation.propagator_unrestricted
         prop = cls(dt=0.01, n_walkers=self.nw, n_batch=nb, n_exp_terms=2)
         hd = self._ham(trial, wd, prop)
         pd = {"walkers": W, "weights": weights, "overlaps": trial.calc_overlap(W, wd), "pop_control_ene_shift": shift, "e_estimate": shift}
-        pd = prop.propagate(trial, hd, pd, fields, wd)
+        if self.mode != "rumeas":  # rumeas: measurements only (several electrons per spin: exchange terms are not 1x1)
+            pd = prop.propagate(trial, hd, pd, fields, wd)
         fb = trial.calc_force_bias(W, hd, wd)
         en = trial.calc_energy(W, hd, wd)
         trial.n_batch = 1
@@ -163,7 +166,7 @@ class StepCase(engine.Case):
 
     def call(self, **kw):
         import jax.numpy as jnp
-        W = kw["W"] if (self.restricted or self.mode == "ru") else [kw["W"], kw["Wd"]]
+        W = kw["W"] if (self.restricted or self.mode in ("ru", "rumeas")) else [kw["W"], kw["Wd"]]
         f, w, s = kw["fields"], kw["weights"], kw["shift"]
         if self.mode == "batch":
             return [self._step(self.restricted, nb, W if self.restricted else list(W), f, w, s) for nb in (1, 2, self.nw)]
@@ -175,7 +178,10 @@ class StepCase(engine.Case):
                 outs.append(self._step(self.restricted, 2, Wp, f[perm], w[perm], s))
             return outs
         # restricted vs unrestricted on equal spin blocks
-        return [self._step(True, 1, W, f, w, s), self._step(False, 1, [W, W], f, w, s)]
+        outs = [self._step(True, 1, W, f, w, s), self._step(False, 1, [W, W], f, w, s)]
+        if self.mode == "rumeas":  # the SAME rhf trial measured on the unrestricted container (rhf._calc_*(walker_up, walker_dn))
+            outs.append(self._step(False, 1, [W, W], f, w, s, rhf_on_list=True))
+        return outs
 
     def relations(self, inp, out):
         rels = []
@@ -207,6 +213,8 @@ class StepCase(engine.Case):
                 cmp(f"perm_{name}", out[j + 1], out[0], perm)
         else:
             cmp("unrestricted_vs_restricted", out[1], out[0])
+            if self.mode == "rumeas":
+                cmp("rhf_on_list_vs_restricted", out[2], out[0])
         return rels
 
 
@@ -216,6 +224,8 @@ def cases(tier):
         for r in (True, False):
             out.append({"type": "step", "mode": mode, "restricted": r, "norb": 2, "nchol": 1, "n_walkers": 4})
     out.append({"type": "step", "mode": "ru", "norb": 2, "nchol": 2, "n_walkers": 2})  # >= 2 Cholesky matrices: constants built from sums over g differ
+    # two electrons per spin: the exchange contraction of rhf's two-block energy is no longer 1x1 (seed C14-5: a dropped transpose)
+    out.append({"type": "step", "mode": "rumeas", "norb": 3, "nocc": 2, "nchol": 2, "n_walkers": 2})
     if tier == "thorough":
         out += [{"type": "trot", "restricted": r, "norb": 3, "nocc": 2, "nchol": 2, "n_walkers": 4, "n_exp_terms": 4} for r in (True, False)]
         out.append({"type": "step", "mode": "ru", "norb": 2, "nchol": 3, "n_walkers": 3})
